@@ -164,10 +164,23 @@ func readAllCollect(r io.Reader, bufSize int) ([]byte, error) {
 	var out []byte
 	var first error
 	turn := atomic.AddUint32(&consumerTurn, 1)
-	if turn%2 == 0 {
+	if turn%3 == 0 {
 		var b bytes.Buffer
 		_, first = io.Copy(&b, r)
 		out = b.Bytes()
+	} else if turn%3 == 1 {
+		// sniff a few bytes with Read (stopping inside a chunk), then hand the rest to io.Copy: the two ways of
+		// consuming must share what has been verified but not yet delivered
+		buf := make([]byte, 1+int(turn/3)%7)
+		n, err := r.Read(buf)
+		out = append(out, buf[:n]...)
+		if err == nil {
+			var b bytes.Buffer
+			_, first = io.Copy(&b, r)
+			out = append(out, b.Bytes()...)
+		} else if err != io.EOF {
+			first = err
+		}
 	} else {
 		buf := make([]byte, bufSize)
 		ended := false
